@@ -7,7 +7,7 @@ expr:   C++ expression over a,b,c (batches), m,n (masks), s (scalar); {n} etc. a
 """
 from . import specs as S
 from . import wholespecs as WS
-from .configs import INTS, FPS, ALL
+from .configs import INTS, FPS, ALL, REPRESENTATIVE
 
 
 class Op(object):
@@ -164,9 +164,9 @@ def _nl(ty, cfg):
 
 
 op('swizzle', 'move_swz', C05 + ['C19'], ALL, 'b', 'b', 'xsimd::swizzle(a, xsimd::batch_constant<{U}, A, {V}>{{}})', WS.swizzle_spec, whole=True,
-   variants=lambda ty, cfg, tier: [{'V': tuple(v)} for v in MK.swizzle_masks(_nl(ty, cfg), tier, 'swz')])
+   variants=lambda ty, cfg, tier: [{'V': tuple(v)} for v in MK.swizzle_masks(_nl(ty, cfg), tier, 'swz', False, tier == 'quick' and cfg.name not in REPRESENTATIVE)])
 op('shuffle', 'move_shf', C05 + ['C19'], ALL, 'bb', 'b', 'xsimd::shuffle(a, b, xsimd::batch_constant<{U}, A, {V}>{{}})', WS.shuffle_spec, whole=True,
-   variants=lambda ty, cfg, tier: [{'V': tuple(v)} for v in MK.swizzle_masks(_nl(ty, cfg), tier, 'shf', True)])
+   variants=lambda ty, cfg, tier: [{'V': tuple(v)} for v in MK.swizzle_masks(_nl(ty, cfg), tier, 'shf', True, tier == 'quick' and cfg.name not in REPRESENTATIVE)])
 op('zip_lo', 'move', C05, ALL, 'bb', 'b', 'xsimd::zip_lo(a, b)', WS.zip_spec(False), whole=True)
 op('zip_hi', 'move', C05, ALL, 'bb', 'b', 'xsimd::zip_hi(a, b)', WS.zip_spec(True), whole=True)
 op('slide_left', 'move', C05 + ['C19'], INTS, 'b', 'b', 'xsimd::slide_left<{N}>(a)', WS.slide_spec(True), whole=True,
